@@ -41,6 +41,7 @@ def run(tier, rep, work):
         raise C.Inconclusive("event count mismatch between driver and trace")
     rep.trace_run("postproc", v, histories_nontrivial=C.distinct_nontrivial(trace, {"agg", "fuse", "merge", "limit", "autocut"}, {"agg", "fuse", "merge", "limit", "autocut"}))
     rep.cov["exhaustive"] = True
+    rep.cov["exhaustive_scope"] = "every input list of the bounded space is fed to the real functions; long random lists are samples"
     rep.cov["rule"] = ("TLC enumerates every result list of length <= %d over ids {1,2,3} and scores 0..3 (%d inputs); each is fed to the real "
                        "Aggregate (3 kinds x vector/text flavour x 2 input orders), mergeResults, LimitResults (k=-2..n+2), Autocut/AutocutResults "
                        "(5 score renderings incl. NaN/Inf/equal x 5 cutoffs) and Combine (4 fusions x 5 key-set shapes); plus %d seeded random calls "
